@@ -238,3 +238,16 @@ PROPS["C12"] = {"jobs": _sched_jobs(8000, 120000), "assumptions": SCHED_ASSUME +
     "claim": {"ref": "DESIGN.md §3.6, §5 C12", "technique": _SCHED_TECH,
               "text": "Same schedule search in waiter and poller mode; the lowest-priority main thread observes the quiescent state after all Writes returned: delivered + reported >= written must hold there (no later Write or Close needed), and after Close every thread must terminate. On the current tree the waiter-mode lost wake-up (KF-C12-1) is a recorded known finding, identified by its history signature; every other violation is reported.",
               "note": "Known finding KF-C12-1 is excluded by signature and counted (excluded_known in the evidence); its committed replay is re-run on every invocation."}}
+
+PROPS["C06"] = {
+    "jobs": [
+        {"name": "workloads", "pkg": "./c06", "run": "^TestWorkloads$", "rapid": T(600, 6000), "shards": T(4, 16), "replay": "^TestReplay$"},
+        {"name": "workloads-race", "pkg": "./c06", "race": True, "run": "^TestWorkloads$", "rapid": T(150, 1500), "shards": T(4, 16)},
+    ],
+    "assumptions": ["event content is deterministic (fixed clock, no caller); settings are the defaults",
+                    "real goroutines: only interleavings the Go scheduler produces are seen; yields, sleeps and a gate inside the writer widen the windows; the race detector (race job) reports unsynchronised access without needing the bad interleaving",
+                    "the togglers only switch between global levels / sampling states that do not filter any generated event"],
+    "claim": {"ref": "DESIGN.md §5 C06", "technique": "property-based testing (rapid) of generated concurrent workloads on real goroutines, with and without the race detector; oracle: multiset identity with solo runs, entry/exit checksums, SyncWriter overlap counter",
+              "text": "Generated-input search: workloads of 2..12 (32 thorough) goroutines, each emitting generated event chains (payloads on both sides of the 500-byte and 64-KiB pool thresholds, nested containers, hooks) through a shared logger, its children and the global logger, against writers that yield, sleep or block inside Write, plain and SyncWriter-wrapped, with concurrent global-level/sampling togglers. The multiset of received slices must equal the multiset obtained by running every chain alone; a slice must not change while Write is in progress; SyncWriter must never let two calls overlap; the race build must report nothing. Held on everything explored.",
+              "note": "Absence of a schedule-dependent failure is not established: the schedule is the Go runtime's (DESIGN.md §7)."},
+}
